@@ -48,11 +48,15 @@ LISTS = ("files", "modules", "submodules", "procedures", "programs", "types", "a
 SETTINGS = dict(display=["public", "private", "protected"])
 
 
-def _files(E, n):
+NAMES = ["a.f90", "b.f90", "c.f90"]
+
+
+def _files(E, n, names=None):
+    names = names or NAMES
     us = [CV.choice(E, f"unit{i}", list(range(len(UNITS)))) for i in range(n)]
     files = {}
     for i, u in enumerate(us):
-        files["abc"[i] + ".f90"] = [choice.apply(lambda k, j=j: UNITS[k][1][j], u) for j in range(NLINES)]
+        files[names[i]] = [choice.apply(lambda k, j=j: UNITS[k][1][j], u) for j in range(NLINES)]
     return us, files
 
 
@@ -130,7 +134,8 @@ def replay_file_order(w):
                            "output digests by PYTHONHASHSEED": seen}
 
 
-def _run_file_order(ctx, nfiles):
+def _run_file_order(ctx, nfiles, names=None):
+    names = names or NAMES
     import ford.fortran_project as fp
     import ford.sourceform as sf
 
@@ -146,7 +151,7 @@ def _run_file_order(ctx, nfiles):
 
     def h(E):
         permset.reset()
-        us, files = _files(E, nfiles)
+        us, files = _files(E, nfiles, names)
         ref = parserh.project(files, post=_observe, **SETTINGS)
         permset.reset()
         got = parserh.project(files, post=_observe, file_order="environment", sym_sets=(fp,), **SETTINGS)
@@ -154,7 +159,7 @@ def _run_file_order(ctx, nfiles):
         E.reachable("both runs")
         if order and order[0][1] != tuple(sorted(order[0][1])):
             E.reachable("non-identity order")
-        E.e.snapshot = lambda m: {"units": {"abc"[i] + ".f90": choice.value_in_model(m, u) for i, u in enumerate(us)},
+        E.e.snapshot = lambda m: {"units": {names[i]: choice.value_in_model(m, u) for i, u in enumerate(us)},
                                   "order": [list(o[1]) for o in order]}
         if ref[0] != got[0]:
             E.require(False, "the order in which source files are enumerated changes the order of the project's entity lists")
@@ -204,6 +209,12 @@ def file_order_2(ctx):
     """two files, each one of 8 program units with overlapping names: entity lists, names and identifiers after
     Project.__init__ + correlate() are the same for every order in which the set of source paths is iterated"""
     _run_file_order(ctx, 2)
+
+
+@obligation("C12", "O1.file-enumeration-order.names-differing-in-case", engine="SX(CV)+permutation stub", timeout=1800)
+def file_order_case(ctx):
+    """two files whose names differ only in letter case (Shapes.f90 / shapes.f90): same requirement (a case-insensitive sort key would tie)"""
+    _run_file_order(ctx, 2, ["Shapes.f90", "shapes.f90"])
 
 
 @obligation("C12", "O1.file-enumeration-order.3-files", engine="SX(CV)+permutation stub", timeout=3000, tiers=("thorough",))
